@@ -55,6 +55,17 @@ Definition guard_cross (d1 d2 : Z) : res unit :=
        at_ d1 2 ;; guard_vec_index d2 0 ;; at_ d1 0 ;; guard_vec_index d2 2 ;;
        at_ d1 0 ;; guard_vec_index d2 1 ;; at_ d1 1 ;; guard_vec_index d2 0.
 
+(** double Vector::operator*(Vector v) const { return Dot(v); } : the by-value copy has the same size *)
+Definition guard_vec_mul (d1 d2 : Z) : res unit := guard_vec_binary d1 d2.
+(** Angle(v1, v2): v1 * v2 / (v1.Norm() * v2.Norm()), Norm() = sqrt(Dot( *this)); the only shape test is the
+    one of Dot inside operator* *)
+Definition guard_angle (d1 d2 : Z) : res unit :=
+  guard_vec_mul d1 d2 ;; guard_vec_binary d1 d1 ;; guard_vec_binary d2 d2.
+(** bool operator==(const Vector&, const Vector&): differing sizes give false, nothing is read *)
+Definition guard_vec_eq (d1 d2 : Z) : res unit :=
+  if negb (d1 =? d2) then Ok tt
+  else for_range 0 d1 (fun i => guard_vec_index d1 i ;; guard_vec_index d2 i).
+
 (** ** 2. Matrix: a matrix object is (rows, columns) with components a rows x columns table *)
 (** Matrix(std::vector<std::vector<double>> entries), given the lengths of the rows of [entries]:
     columns(entries.empty() ? 0 : entries[0].size()) *)
@@ -109,6 +120,11 @@ Definition guard_vec_mat (d rows cols : Z) : res unit :=
   if negb (d =? rows) then Exit
   else for_range 0 cols (fun i => for_range 0 rows (fun j =>
          at_ cols i ;; guard_vec_index d j ;; guard_mat_index rows j ;; at_ cols i)).
+(** Outer_Vector_Product(lhs, rhs): Matrix M(lhs.Size(), rhs.Size()); M[i][j] = lhs[i] * rhs[j]; every pair of
+    sizes is meaningful *)
+Definition guard_outer (d1 d2 : Z) : res unit :=
+  for_range 0 d1 (fun i => for_range 0 d2 (fun j =>
+    guard_mat_index d1 i ;; at_ d2 j ;; guard_vec_index d1 i ;; guard_vec_index d2 j)).
 Definition guard_trace (rows cols : Z) : res unit :=
   if negb (rows =? cols) then Exit
   else for_range 0 rows (fun i => at_ rows i ;; at_ cols i).
@@ -676,7 +692,8 @@ Fixpoint factorial_session {T} (Ops : NumOps T) (memo : Z) (cs : list fcall) : r
 (** *** Vector: (dimension, components.size()) *)
 Record vec : Type := { v_dim : Z; v_len : Z }.
 Inductive vec_op : Type := VResize (d : Z) | VAssign (d : Z) | VCopy | VSet (d : Z) | VAddEq (d : Z).
-Inductive vec_probe : Type := VPNone | VPAt (i : Z) | VPBinary (d : Z) | VPCross (d : Z).
+Inductive vec_probe : Type := VPNone | VPAt (i : Z) | VPBinary (d : Z) | VPCross (d : Z)
+  | VPBinaryR (d : Z) | VPCrossR (d : Z) | VPAngle (d : Z) | VPAngleR (d : Z) | VPEq (d : Z) | VPEqR (d : Z).
 Definition vec_new (d : Z) : vec := {| v_dim := d; v_len := d |}.
 Definition vec_wfb (v : vec) : bool := v_len v =? v_dim v.
 Definition vec_step (v : vec) (o : vec_op) : res vec :=
@@ -698,6 +715,12 @@ Definition vec_probe_guard (v : vec) (p : vec_probe) : res unit :=
   | VPAt i => guard_vec_index (v_dim v) i
   | VPBinary d => guard_vec_binary (v_dim v) d
   | VPCross d => guard_cross (v_dim v) d
+  | VPBinaryR d => guard_vec_binary d (v_dim v)          (* the object is the RIGHT operand *)
+  | VPCrossR d => guard_cross d (v_dim v)
+  | VPAngle d => guard_angle (v_dim v) d
+  | VPAngleR d => guard_angle d (v_dim v)
+  | VPEq d => guard_vec_eq (v_dim v) d
+  | VPEqR d => guard_vec_eq d (v_dim v)
   end.
 Definition vec_session (d : Z) (ops : list vec_op) (p : vec_probe) : res vec :=
   let* v := vec_history (vec_new d) ops in vec_probe_guard v p ;; Ok v.
